@@ -168,7 +168,10 @@ func alterWare(c *Ctx, stored []byte, mut string, other []byte) []byte {
 					break
 				}
 			}
-			switch arg(2) % 4 {
+			switch arg(2) % 5 {
+			case 4: // a sub-second mtime (a PAX 'mtime' record): part of the hashed metadata
+				hs[i].ModTime = hs[i].ModTime.Add(time.Duration(1 + arg(1)%999999999))
+				hs[i].Format = tar.FormatPAX
 			case 0:
 				hs[i].Mode ^= 0100
 			case 1:
@@ -467,7 +470,7 @@ func fetchEngine(c *Ctx) {
 	if c.Tier == "thorough" {
 		n = 150
 	}
-	muts := []string{"none", "recompress", "plain", "pad:2", "reorder", "flip", "flip", "flip", "trunc", "trunc", "truncgz", "substitute", "dropentry", "addentry", "addlink", "twomember", "twomember-same", "adddir", "modattr", "modattr", "modcontent"}
+	muts := []string{"none", "recompress", "plain", "pad:2", "reorder", "flip", "flip", "flip", "trunc", "trunc", "truncgz", "substitute", "dropentry", "addentry", "addlink", "twomember", "twomember-same", "adddir", "modattr", "modattr", "modattr-ns", "modcontent"}
 	modes := []string{"direct", "copy", "none", "mount"}
 	for k := 0; k < n; k++ {
 		fsx := c.GenFileset(GenOpts{MaxEntries: 7, Kinds: "fffdLp", SubSecond: false, BigIds: false, Setid: false, MaxContent: 1500})
@@ -482,14 +485,18 @@ func fetchEngine(c *Ctx) {
 			case "trunc", "truncgz":
 				mut = fmt.Sprintf("%s:%d", m, c.Intn(1<<20))
 			case "modattr":
-				mut = fmt.Sprintf("modattr:%d:%d", c.Intn(50), c.Intn(4))
+				mut = fmt.Sprintf("modattr:%d:%d", c.Intn(50), c.Intn(5))
+			case "modattr-ns":
+				mut = fmt.Sprintf("modattr:%d:4", 1+c.Intn(999999998))
 			case "dropentry":
 				mut = fmt.Sprintf("dropentry:%d", c.Intn(50))
 			case "addlink":
 				mut = fmt.Sprintf("addlink:%d", c.Intn(50))
 			}
 			mode := modes[c.Intn(4)]
-			if c.Chance(1, 3) {
+			if m == "modattr-ns" && k < 2 {
+				// plain: the altered ware is read
+			} else if c.Chance(1, 3) {
 				mode += "+alt"
 			} else if c.Chance(1, 3) || (k == 0 && (m == "substitute" || m == "trunc" || m == "flip")) {
 				mode += "+warm"
